@@ -116,8 +116,22 @@ pub fn run(reg: &[Box<dyn TypeOps>], cfg: &Cfg, out: &mut dyn Write) {
             big[base..base + room].copy_from_slice(&garbage);
             let ok = guarded(|| t.new_in_place(&mut big[base..base + room], &d)).map(|r| r.is_ok()).unwrap_or(false);
             if !ok { continue; }
-            let z = match guarded(|| t.probe(&big[base..base + room]).res) { Some(Ok((_, _, z, _, _))) if z <= room => z, _ => continue };
+            let (vlen, z) = match guarded(|| t.probe(&big[base..base + room]).res) { Some(Ok((v, _, z, _, _))) if z <= room => (v, z), _ => continue };
             let image = big[base..base + z].to_vec();
+            // a top-level FlexVec also in the encoding the library never writes itself: real offset on the last item, then (after
+            // some slack) a terminating zero slot
+            if let Shape::Flex(_, l) = &sh {
+                for slack in [0usize, al] {
+                    if let Some(alt) = crate::shape::terminate_chain(&big[base..base + room], l, sh.data_offset(), slack, vlen, z) {
+                        let end = z + slack + sh.data_offset();
+                        emit(&mut ar, &mut ar2, &alt[..end], Place::End, it % 2 == 0, None, out);
+                        let mut w = alt[..end].to_vec();
+                        let extra_n = 1 + rng.below((al + 2) as u64) as usize;
+                        w.extend(rng.bytes(extra_n));
+                        emit(&mut ar, &mut ar2, &w, rand_place(&mut rng), false, None, out);
+                    }
+                }
+            }
             // V / X: the image followed by 0 .. 2*align+3 further bytes
             let extra = rng.below((2 * al + 4) as u64) as usize;
             let mut v = image.clone();
